@@ -25,6 +25,9 @@ type C12Case struct {
 	// Mixed (form "mixed-kinds"): the values of column g of table t, as tokens "<go type>:<text>"; the
 	// document is built from them at check time because JSON cannot carry Go types. Column v numbers the rows.
 	Mixed []string `json:"mixed,omitempty"`
+	// Many (form "many-groups"): table t is built at check time from {rows, a, b}: row i holds g1 = i mod a,
+	// g2 = "s<(i div a) mod b>", v = i - min(rows, a*b) distinct (g1, g2) pairs, met again once all have appeared
+	Many []int `json:"many,omitempty"`
 	// Between: an evaluation of its own (own document, own text) that runs in the same process between the first
 	// execution and every re-execution. It is not judged - it may fail, and mostly does: what the judged query
 	// returns on an equal input does not depend on what the engine evaluated, or failed to evaluate, in between.
@@ -169,6 +172,13 @@ func c12MixedValue(tok string) any {
 }
 
 func (c *C12Case) doc() map[string]any {
+	if len(c.Many) == 3 {
+		rows := make([]any, c.Many[0])
+		for i := range rows {
+			rows[i] = map[string]any{"g1": float64(i % c.Many[1]), "g2": fmt.Sprintf("s%d", (i/c.Many[1])%c.Many[2]), "v": float64(i)}
+		}
+		return map[string]any{"t": rows}
+	}
 	if c.Mixed == nil {
 		return val.CopyMap(c.Doc)
 	}
@@ -286,6 +296,22 @@ func c12Col(form string, prefix string) string {
 }
 
 func genC12(t *rapid.T) any {
+	if rapid.IntRange(0, 1<<20).Draw(t, "many")%40 == 39 {
+		// determinism does not depend on the number of groups / distinct rows: several hundred to a thousand distinct
+		// two-column keys, every one met again later in the table
+		c := &C12Case{Form: "many-groups", Unordered: true, Repeats: 4}
+		a := rapid.SampledFrom([]int{7, 23, 32, 33, 64}).Draw(t, "many.a")
+		b := rapid.SampledFrom([]int{5, 9, 16, 17, 31}).Draw(t, "many.b")
+		c.Many = []int{a*b + rapid.IntRange(1, 400).Draw(t, "many.extra"), a, b}
+		c.Position = rapid.SampledFrom([]string{"group-by", "group-by-having", "distinct", "union"}).Draw(t, "many.pos")
+		c.SQL = map[string]string{
+			"group-by":        "SELECT g1, g2, COUNT(*) AS n, MAX(v) AS mv FROM t GROUP BY g1, g2",
+			"group-by-having": "SELECT g2, g1, SUM(v) AS sv FROM t GROUP BY g2, g1 HAVING COUNT(*) > 1",
+			"distinct":        "SELECT DISTINCT g1, g2 FROM t",
+			"union":           "SELECT g1, g2 FROM t UNION SELECT g1, g2 FROM t",
+		}[c.Position]
+		return c
+	}
 	if rapid.IntRange(0, 9).Draw(t, "mixed") == 0 {
 		// determinism does not depend on the column holding one kind of value: grouping, de-duplication, IN and
 		// joins over values of mixed kinds and Go types must give the same answer on every run
